@@ -2,7 +2,7 @@
    and mode applied to the receiver before every operation, and an error latch
    that records the first ErrNaN and turns later operations into no-ops until
    Err() is called. *)
-From Dec Require Export L3.Store.
+From Dec Require Export L3.Store L3.Sqrt.
 Open Scope Z_scope.
 
 Record ctx := mkCtx { cprec : Z; cmode : mode; cerr : bool }.
@@ -24,6 +24,7 @@ Inductive cop :=
 | CAdd (z x y : nat) | CSub (z x y : nat) | CMul (z x y : nat) | CQuo (z x y : nat)
 | CFMA (z x y u : nat)
 | CNeg (z x : nat) | CAbs (z x : nat) | CSet (z x : nat)
+| CSqrt (z x : nat)
 | CErr
 | CSetPrec (p : Z) | CSetMode (m : mode)
 | CNew (z : nat) | CNewInt64 (z : nat) (v : Z) | CNewUint64 (z : nat) (v : Z)
@@ -75,11 +76,12 @@ Definition unguarded (st : cstate) (z : nat) (pre : bool) (f : store -> ores) : 
 Definition cstep (st : cstate) (o : cop) : cstate * result :=
   let '(s, c) := st in
   match o with
-  | CAdd z x y => guarded st z (fun s => Add (Nat.eqb z x) (Nat.eqb z y) (get s z) (get s x) (get s y))
+  | CAdd z x y => guarded st z (fun s => Arith.Add (Nat.eqb z x) (Nat.eqb z y) (get s z) (get s x) (get s y))
   | CSub z x y => guarded st z (fun s => Sub (Nat.eqb z x) (Nat.eqb z y) (get s z) (get s x) (get s y))
   | CMul z x y => guarded st z (fun s => Mul (get s z) (get s x) (get s y))
   | CQuo z x y => guarded st z (fun s => Quo (get s z) (get s x) (get s y))
   | CFMA z x y u => guarded st z (fun s => FMA (Nat.eqb z u) (get s z) (get s x) (get s y) (get s u))
+  | CSqrt z x => guarded st z (fun s => Sqrt (Nat.eqb z x) (get s z) (get s x))
   | CNeg z x => unguarded st z true (fun s => Neg_ (Nat.eqb z x) (get s z) (get s x))
   | CAbs z x => unguarded st z true (fun s => Abs_ (Nat.eqb z x) (get s z) (get s x))
   | CSet z x => unguarded st z false (fun s => Copy (Nat.eqb z x) (get s z) (get s x))
